@@ -541,8 +541,12 @@ Inductive scen :=
 | ScCloseSilent         (* stream Close against a broker that never acknowledges chunks and never answers the close
                            request (pings are answered): pos 0/1 downstream, pos >= 2 upstream; the caller's context
                            is already done at entry (p_ctx = 0) or expires during the final flush / ack wait *)
+| ScReentrantHook       (* a user callback (pos: 0 send hook, 1 ack hook, 2 upstream closed handler, 3 downstream closed
+                           handler, 4 send hook + Flush from the hook) calls back into the same stream: State() *)
 | ScUpCloseSlowList.    (* Upstream.Close, ack withheld, both deadlines expire while sent.List is in progress *)
-Inductive beh := BAnswer | BDelay | BDrop | BMisaddr | BDisconnect.
+(* BDup: the broker writes its answer 3-6 times back-to-back; the copies after the first are addressed to a request that
+   is no longer registered and are dropped by the dispatcher *)
+Inductive beh := BAnswer | BDelay | BDrop | BMisaddr | BDisconnect | BDup.
 
 Record params := mkPrm {
   p_ctx : N;       (* context deadline of the call under test, ms *)
@@ -562,7 +566,7 @@ Definition scen_eqb (a b : scen) : bool :=
   | ScCloseWhilePending, ScCloseWhilePending | ScCloseDuringOutage, ScCloseDuringOutage
   | ScUpCloseDuringOutage, ScUpCloseDuringOutage | ScUpCloseSlowList, ScUpCloseSlowList
   | ScFlushAbandoned, ScFlushAbandoned | ScFloodThenRequest, ScFloodThenRequest
-  | ScReadManyGroups, ScReadManyGroups | ScCloseSilent, ScCloseSilent => true
+  | ScReadManyGroups, ScReadManyGroups | ScCloseSilent, ScCloseSilent | ScReentrantHook, ScReentrantHook => true
   | _, _ => false
   end.
 
@@ -590,6 +594,7 @@ Definition scen_procs (sc : scen) (pr : params) : list proc :=
   | ScFlushAbandoned => [upWrite ctx; upFlush ctx (fun r => Ret r)]
   | ScFloodThenRequest => [connRequest 2 ctx 1]
   | ScReadManyGroups => [readDP ctx]
+  | ScReentrantHook => [upFlush ctx (fun r => Ret r); upState]     (* the hook runs on the event dispatcher, outside every lock *)
   | ScCloseSilent => [upClose ctx (p_cto pr) 1]
   end.
 (* which of them is the call under test *)
@@ -631,6 +636,7 @@ Definition scen_flags (sc : scen) (pos : N) : list flag :=
   | ScUpCloseDuringOutage => [FStConnected; FFlushReady; FFlushRes]
   | ScUpCloseSlowList => [FStConnected; FFlushReady; FFlushRes; FReply 1]
   | ScFlushAbandoned => [FStConnected; FWriteRecv; FFlushReady; FFlushRes]   (* the flush loop is back at its select *)
+  | ScReentrantHook => [FStConnected; FWriteRecv; FFlushReady; FFlushRes]
   | ScCloseSilent => [FStConnected; FFlushReady; FFlushRes] ++ (match pos with 0 => [FFinalAck] | _ => [] end)
   | _ => [FStConnected]
   end.
@@ -653,7 +659,7 @@ Definition sort_t (l : list tev) : list tev := fold_left (fun acc x => insert_t 
 Definition scen_script (sc : scen) (b : beh) (pos : N) (pr : params) : list tev :=
   let f := done_flag sc pos in
   match b with
-  | BAnswer => [(0, ESet f true)]
+  | BAnswer | BDup => [(0, ESet f true)]
   | BDelay => [(p_delay pr, ESet f true)]
   | BDrop | BMisaddr => []
   | BDisconnect =>
@@ -739,7 +745,8 @@ Definition blk_ok (c : blk_case) : bool :=
      | ScConnClose | ScCloseWhilePending | ScCloseDuringOutage => outcome_eqb (b_follow c) OConnClosed && (b_follow_ms c <=? b_slack c)
      (* "later calls still work": after abandoned flushes / an inbound flood nobody collects, a call
         that a healthy broker answers at once succeeds, and so does the Close after it *)
-     | ScFlushAbandoned | ScFloodThenRequest | ScReadManyGroups => outcome_eqb (b_class c) ONil && outcome_eqb (b_follow c) ONil
+     | ScFlushAbandoned | ScFloodThenRequest | ScReadManyGroups | ScReentrantHook =>
+         outcome_eqb (b_class c) ONil && outcome_eqb (b_follow c) ONil
      | _ => outcome_eqb (b_follow c) ONil
      end.
 
